@@ -208,6 +208,31 @@ func genTransport() (string, error) {
 	}
 	// NewHandshake without the reflection guard: the statement sequence `Party.finish` follows
 	fmt.Fprintf(&b, "def src_NewHandshake_core : String := %q\n", strings.Join(core, "; "))
+	// does the session continue on the SAME EncryptedConn (and therefore with the nonce counters) that
+	// carried the encrypted part of the handshake? Recognised shape: exactly one `encryptedConn = &EncryptedConn{…}`,
+	// exactly two newInternalState(…) calls (receive, send), no other composite literal of EncryptedConn,
+	// and the function ends with a bare `return` of the named result.
+	nConn, nState := 0, 0
+	ast.Inspect(nh.Body, func(n ast.Node) bool {
+		switch v := n.(type) {
+		case *ast.CompositeLit:
+			if g.ExprText(v.Type) == "EncryptedConn" {
+				nConn++
+			}
+		case *ast.CallExpr:
+			if g.ExprText(v.Fun) == "newInternalState" {
+				nState++
+			}
+		}
+		return true
+	})
+	bare := false
+	if r, ok := nh.Body.List[len(nh.Body.List)-1].(*ast.ReturnStmt); ok && len(r.Results) == 0 {
+		bare = true
+	}
+	named := nh.Type.Results != nil && len(nh.Type.Results.List) > 0 && len(nh.Type.Results.List[0].Names) == 1 && nh.Type.Results.List[0].Names[0].Name == "encryptedConn"
+	keeps := nConn == 1 && nState == 2 && bare && named
+	fmt.Fprintf(&b, "/-- the session runs on the same EncryptedConn object — same AEAD states, nonce counters NOT restarted — as the encrypted part of the handshake -/\ndef sessionKeepsHandshakeState : Bool := %v\n/-- encrypted handshake messages per direction before the session starts (signature swap, meta swap) -/\ndef handshakeFrames : Nat := %d\n", keeps, strings.Count(g.StmtsText(nh.Body.List), "Swap(encryptedConn,")-1)
 	fmt.Fprintf(&b, "/-- NewHandshake refuses a peer signature whose public key equals our own (reflection guard) -/\ndef rejectsOwnKey : Bool := %v\ndef src_ownKeyCheck : String := %q\n", own, ownSrc)
 	b.WriteString("end Canopy.Gen.Transport\n")
 	return b.String(), nil
